@@ -1070,7 +1070,7 @@ def run(ctx):
     items.sort(key=lambda a: -a[2][2] if a[2][2] > 1 else -5)
     nw = max(1, min(int(os.environ.get("VERIF_PY_JOBS", "8")), len(items)))
     cases, records = [], []
-    with ProcessPoolExecutor(max_workers=nw, mp_context=multiprocessing.get_context("spawn")) as ex:
+    with ProcessPoolExecutor(max_workers=nw, mp_context=multiprocessing.get_context("spawn"), max_tasks_per_child=3) as ex:
         results = list(ex.map(_worker, items))
     results.sort(key=lambda r: r["item"][0])
     for r in results:
